@@ -1,83 +1,11 @@
+import os
 subs=[("idle","stepIdle",True),("begin","stepBegin",False),("commit","stepCommit",False),("abort","stepAbort",False),("after","stepAfter",True),("use","stepUse",False),("sess","stepSess",False),("close","stepClose",False),("exp","stepExp",False)]
 pcname={"idle":".idle","after":".after"}
 head='''/-
-  Lungo.Proofs.ConcOwn — well-formedness, session `starting` protocol and ownership invariants of
-  the concurrency model: every write transaction installed in `e.txn` has a designated finisher
-  (an in-flight actor or a session at rest) until it is unset — the basis of `quiescent_free`.
-  (Per-sub-machine lemmas are generated mechanically; see the macro `goal_simp`.)
+  Lungo.Proofs.ConcOwn — Lwf / Rng / Bnd preservation lemmas per sub-machine (generated mechanically).
 -/
-import Lungo.Proofs.ConcFrame
+import Lungo.Proofs.ConcOwnDefs
 namespace Lungo.Conc
-
-/-- actor-local well-formedness of the registers read by guards -/
-def LWf (l : Local) : Prop :=
-  ((l.pc = .bSessLock ∨ l.pc = .bSessRead ∨ l.pc = .bAcquire ∨ l.pc = .bRelock ∨ l.pc = .bPost) →
-    l.lockF = true) ∧
-  ((l.pc = .bSessLock ∨ l.pc = .bSessRead ∨ l.pc = .uSessLock ∨ l.pc = .uSessRead) → l.ctxSess.isSome = true) ∧
-  ((l.pc = .cStore ∨ l.pc = .uCb ∨ l.pc = .uCbSess ∨ l.pc = .uCbRead ∨ l.pc = .xExpire) → l.t.isSome = true) ∧
-  (l.pc = .after → (l.k = .use ∨ l.k = .start ∨ l.k = .expBegin ∨ l.k = .dBegin) → l.res = .ok →
-    l.t.isSome = true) ∧
-  (l.k = .dBegin → (l.pc = .bLock ∨ l.pc = .bCheck ∨ l.pc = .bSessLock ∨ l.pc = .bSessRead ∨
-    l.pc = .bAcquire ∨ l.pc = .bRelock ∨ l.pc = .bPost ∨ l.pc = .after) → l.handle = none)
-
-/-- the actor is inside `startTransaction` of session `sid`, after having set `starting` -/
-def StartFlow (l : Local) (sid : SessId) : Prop :=
-  l.sid = sid ∧ (l.pc = .ssRelock ∨ l.pc = .ssFinal ∨
-    (l.k = .start ∧ (l.pc = .bLock ∨ l.pc = .bCheck ∨ l.pc = .bSessLock ∨ l.pc = .bSessRead ∨
-      l.pc = .bAcquire ∨ l.pc = .bRelock ∨ l.pc = .bPost ∨ l.pc = .after)))
-
-/-- local states in which actor-local state designates the actor as finisher of `t` -/
-def OwnsL (l : Local) (t : Tid) : Prop :=
-  l.handle = some t ∨ (l.t = some t ∧ (
-    (l.pc = .after ∧ l.res = .ok ∧ l.lockF = true ∧
-      (l.k = .use ∨ l.k = .start ∨ l.k = .expBegin ∨ l.k = .dBegin)) ∨
-    l.pc = .uCb ∨ l.pc = .xExpire ∨ ((l.pc = .ssRelock ∨ l.pc = .ssFinal) ∧ l.res = .ok) ∨
-    l.pc = .cLock ∨ l.pc = .cCheck ∨ l.pc = .cStore ∨
-    (l.pc = .after ∧ l.k = .useCommit) ∨
-    ((l.pc = .aLock ∨ l.pc = .aBody) ∧ l.k ≠ .sessAbort)))
-
-def Owned (s : State) (t : Tid) : Prop :=
-  match s.eng.own with
-  | .actor b => OwnsL (s.loc b) t
-  | .sess sid => (s.sess sid).txn = some t
-
-def Lwf (s : State) : Prop := ∀ a, LWf (s.loc a)
-def Rng (s : State) : Prop := ∀ a, a > s.n → (s.loc a).pc = .idle
-def Bnd (s : State) : Prop :=
-  (∀ t, s.eng.txn = some t → t < s.eng.nextTid) ∧
-  (∀ a t, (s.loc a).t = some t → t < s.eng.nextTid) ∧
-  (∀ a t, (s.loc a).handle = some t → t < s.eng.nextTid) ∧
-  (∀ sid t, (s.sess sid).txn = some t → t < s.eng.nextTid)
-/-- the `starting` flag protocol of `startTransaction` -/
-def Sinv (s : State) : Prop :=
-  (∀ sid, (s.sess sid).starting = true → (s.sess sid).txn = none) ∧
-  (∀ a sid, (s.sess sid).starter = some a ↔ StartFlow (s.loc a) sid) ∧
-  (∀ sid, (s.sess sid).starter.isSome = (s.sess sid).starting)
-/-- ownership of the installed write transaction -/
-def Oinv (s : State) : Prop :=
-  (s.eng.alive = true → ∀ t, s.eng.txn = some t → Owned s t) ∧
-  (∀ a, (s.loc a).k = .sessAbort → ((s.loc a).pc = .aLock ∨ (s.loc a).pc = .aBody ∨ (s.loc a).pc = .after) →
-    (s.sess (s.loc a).sid).txn = (s.loc a).t) ∧
-  (∀ a, (s.loc a).k = .sessAbort → (s.loc a).pc = .after → s.eng.alive = true →
-    ∀ t, (s.loc a).t = some t → s.eng.txn ≠ some t)
-
-structure Inv2 (s : State) : Prop where
-  lwf : Lwf s
-  rng : Rng s
-  bnd : Bnd s
-  sinv : Sinv s
-  oinv : Oinv s
-
-macro "goal_simp" : tactic => `(tactic|
-  simp only [State.put, State.putS, State.finish, State.write, upd_apply, Eng.unlock, Eng.release,
-    Local.back, Local.invoke, EHold, THold, SHold, BeginWf, LWf, OwnsL, Owned, StartFlow, newTxn,
-    if_true, if_false, ite_true, ite_false])
-
-theorem inv2_init (n : Nat) : Inv2 (init n) := by
-  refine ⟨fun b => ?_, fun b => ?_, ⟨?_, fun b => ?_, fun b => ?_, ?_⟩, ⟨?_, fun b sid => ?_, ?_⟩,
-    ⟨?_, fun b => ?_, fun b => ?_⟩⟩
-  all_goals (simp only [init, LWf, StartFlow]; try (by_cases hb : b = 0 <;> simp [hb]))
-  all_goals simp
 '''
 def thm(field, name, fn, haspc, hyps, goal, body):
     pc = f"(hpc : (s.loc a).pc = {pcname[name]}) " if haspc else ""
@@ -97,7 +25,13 @@ for name,fn,haspc in subs:
   simp only [LWf, BeginWf] at g w
   unfold {fn} at hs
   conc_split hs
-  all_goals (goal_simp; grind)'''
+  all_goals (
+    by_cases hba : b = a
+    · subst hba; (try goal_simp); grind
+    · (try simp only [State.put, State.putS, State.finish, State.write, upd_apply, if_neg hba])
+      first
+      | exact g
+      | ((try goal_simp); grind))'''
     out+=thm("lwf",name,fn,haspc,"(inv1 : Inv1 s) (g1 : Lwf s)","Lwf s'",body)
 # F2 Rng
 for name,fn,haspc in subs:
@@ -106,7 +40,15 @@ for name,fn,haspc in subs:
   clear g1
   unfold {fn} at hs
   conc_split hs
-  all_goals (goal_simp; simp only [State.put, State.putS, State.finish, State.write] at hb; grind)'''
+  all_goals (
+    by_cases hba : b = a
+    · subst hba
+      simp only [State.put, State.putS, State.finish, State.write] at hb
+      exact absurd hle (Nat.not_le_of_gt hb)
+    · (try simp only [State.put, State.putS, State.finish, State.write, upd_apply, if_neg hba])
+      first
+      | exact g hb
+      | (goal_simp; simp only [State.put, State.putS, State.finish, State.write] at hb; grind))'''
     out+=thm("rng",name,fn,haspc,"(hle : a ≤ s.n) (g1 : Rng s)","Rng s'",body)
 # F3 Bnd
 for name,fn,haspc in subs:
@@ -120,10 +62,26 @@ for name,fn,haspc in subs:
   conc_split hs
   all_goals (
     refine ⟨?_, fun b => ?_, fun b => ?_, ?_⟩
-    · goal_simp; grind
-    · have b2b := b2 b; goal_simp; grind
-    · have b3b := b3 b; goal_simp; grind
-    · goal_simp; grind)'''
+    · first
+      | exact b1
+      | (clear b2 b3; goal_simp; grind)
+    · have b2b := b2 b
+      by_cases hba : b = a
+      · subst hba; clear b2 b3; (try goal_simp); grind
+      · (try simp only [State.put, State.putS, State.finish, State.write, upd_apply, if_neg hba])
+        first
+        | exact b2b
+        | (clear b2 b3; (try goal_simp); grind)
+    · have b3b := b3 b
+      by_cases hba : b = a
+      · subst hba; clear b2 b3; (try goal_simp); grind
+      · (try simp only [State.put, State.putS, State.finish, State.write, upd_apply, if_neg hba])
+        first
+        | exact b3b
+        | (clear b2 b3; (try goal_simp); grind)
+    · first
+      | exact b4
+      | (clear b2 b3; goal_simp; grind))'''
     out+=thm("bnd",name,fn,haspc,"(lw : Lwf s) (g1 : Bnd s)","Bnd s'",body)
 out+="\nend Lungo.Conc\n"
-open('/root/wt/a4/lean/Lungo/Proofs/ConcOwn.lean','w').write(out)
+open(os.path.join(os.path.dirname(os.path.abspath(__file__)),'..','Lungo','Proofs')+'/ConcOwn.lean','w').write(out)
